@@ -39,6 +39,25 @@ Theorem c15_refused_never_runs : forall caps s i t,
   forall ls s', steps s ls = Some s' -> nth_error (tasks s') i = Some t.
 Proof. exact refused_never_runs. Qed.
 
+(** The task count is exactly the number of calls between runPrelude and
+    runPostlude: a submission that was refused or returned an error is not
+    counted, and the step by which a submission ends in an error -- from the
+    select on ShouldQuiesce / ctx.Done(), ErrThrottled, the context test after
+    the slot was obtained, or runPrelude saying no -- leaves the count as it
+    was (so a refused submission cannot keep Stop waiting). *)
+Theorem c15_errored_submission_not_counted : forall caps s,
+  reachable caps s ->
+  num_tasks s = Z.of_nat (count in_flight (tasks s)) /\
+  forall i t, nth_error (tasks s) i = Some t -> (exists r, t_ret t = Some r /\ r <> RNil) ->
+              in_flight t = false /\ pc t = TRefused.
+Proof. exact task_count_exact. Qed.
+
+Theorem c15_errored_submission_keeps_count : forall s l s' i t t',
+  step s l = Next s' -> nth_error (tasks s) i = Some t -> pc t <> TRefused ->
+  nth_error (tasks s') i = Some t' -> pc t' = TRefused ->
+  num_tasks s' = num_tasks s.
+Proof. exact errored_submission_keeps_count. Qed.
+
 (** Every accepted task was accepted before the quiesce channel closed and
     has begun, ended and run its postlude before the stop channel closed. *)
 Theorem c15_accepted_completes_before_stop_channel_closes : forall caps s ts i t a,
